@@ -110,7 +110,7 @@ func ruleC18_1(c *Ctx) {
 				}
 				seen[o]++
 				pc, idx := producer(st.Val, st)
-				okVal := pc != nil && idx == 0 && calleeName(pc) == helper
+				okVal := pc != nil && idx == 0 && calleeName(pc) == helper && len(pc.Common().Args) > 1
 				if okVal {
 					arg := pc.Common().Args[1]
 					okVal = false
@@ -190,7 +190,7 @@ func ruleC18_1(c *Ctx) {
 			}
 			seen[o]++
 			pc, idx := producer(st.Val, st)
-			okVal := pc != nil && idx == 0 && calleeName(pc) == helper && org(pc.Common().Args[1]) == o && sameElement(st.Addr, pc.Common().Args[1])
+			okVal := pc != nil && idx == 0 && calleeName(pc) == helper && len(pc.Common().Args) > 1 && org(pc.Common().Args[1]) == o && sameElement(st.Addr, pc.Common().Args[1])
 			detail := short(org(st.Val))
 			c.check(okVal, R, fn, "assignment to "+o, st.Pos(), helper+"(replacer, same field of the same element)", "assigned value is "+detail+", not the substitution of this very field")
 			// whole-slice range-index loop
@@ -238,7 +238,7 @@ func ruleC18_1(c *Ctx) {
 					}
 					seen[o]++
 					pc, idx := producer(st.Val, st)
-					okVal := pc != nil && idx == 0 && calleeName(pc) == helper && sameElement(st.Addr, pc.Common().Args[1])
+					okVal := pc != nil && idx == 0 && calleeName(pc) == helper && len(pc.Common().Args) > 1 && sameElement(st.Addr, pc.Common().Args[1])
 					if okVal {
 						ao, _ := tr(org(pc.Common().Args[1]))
 						okVal = ao == o
@@ -434,6 +434,50 @@ func ruleC18_2(c *Ctx) {
 			return false
 		}, false)
 		c.check(fromAppends, R, fn, "replacer built from the accumulated pairs", nr.Pos(), "strings.NewReplacer(parameters...)", "the replacer is not built from the accumulated pairs")
+		// ... and from nothing else: the list starts empty and every append on the way is one of the pair appends
+		var bases []ssa.Value
+		extra := 0
+		seenV := map[ssa.Value]bool{}
+		var back func(v ssa.Value)
+		back = func(v ssa.Value) {
+			if v == nil || seenV[v] {
+				return
+			}
+			seenV[v] = true
+			switch x := v.(type) {
+			case *ssa.Phi:
+				for _, e := range x.Edges {
+					back(e)
+				}
+			case *ssa.Call:
+				if calleeName(x) == "builtin:append" {
+					isPair := false
+					for _, a := range appends {
+						if a == x {
+							isPair = true
+						}
+					}
+					if !isPair {
+						extra++
+					}
+					back(x.Call.Args[0])
+					return
+				}
+				bases = append(bases, v)
+			default:
+				bases = append(bases, v)
+			}
+		}
+		back(nr.Common().Args[0])
+		okBase := len(bases) > 0
+		bad := ""
+		for _, b := range bases {
+			if !emptySliceValue(b) {
+				okBase = false
+				bad = short(org(b))
+			}
+		}
+		c.check(okBase && extra == 0, R, fn, "the pair list starts empty", nr.Pos(), "make([]string, 0) / nil, then only the pair appends", "the list handed to strings.NewReplacer does not start empty ("+bad+") or gets other elements: text that is not a {NAME} marker of a supplied parameter is rewritten as well")
 	} else {
 		c.bad(R, fn, "strings.NewReplacer", f.Pos(), "no strings.Replacer is built")
 	}
@@ -514,6 +558,10 @@ func ruleC18_4(c *Ctx) {
 	}
 	c.check(len(nrs) == 1 && !inLoop, R, fname(f), "one replacer, built once", f.Pos(), "single strings.NewReplacer outside loops", fmt.Sprintf("%d NewReplacer calls (in loop: %v)", len(nrs), inLoop))
 	// helper 1: Replace applied to original elements, results collected in a fresh slice
+	if len(h1.Params) != 2 {
+		c.undecided(R, fname(h1), "helper signature", h1.Pos(), fmt.Sprintf("the helper has %d parameter(s); the rule reads helpers of the form (replacer, slice): where the replacer comes from cannot be decided here", len(h1.Params)))
+		return
+	}
 	reps := callsIn(h1, "(*strings.Replacer).Replace")
 	c.check(len(reps) == 1, R, fname(h1), "exactly one Replace per string", h1.Pos(), "1", fmt.Sprintf("%d Replace calls", len(reps)))
 	for _, rp := range reps {
